@@ -163,9 +163,12 @@ def concatenate_clauses(ctx):
     cat = ctx.N(repo.func('dataflows.processors.concatenate:concatenator'))
     cat0 = repo.func('dataflows.processors.concatenate:concatenator')
     func = repo.func('dataflows.processors.concatenate:concatenate.func')
-    loops = [n for n in own_nodes(cat.node) if isinstance(n, ast.For)]
-    ok = len(loops) == 2 and pseudo(loops[0].iter) == cat.params[0] and isinstance(loops[0].target, ast.Name) \
-        and pseudo(loops[1].iter) == loops[0].target.id
+    all_loops = [n for n in own_nodes(cat.node) if isinstance(n, ast.For)]
+    outer_ = [l_ for l_ in all_loops if pseudo(l_.iter) == cat.params[0] and isinstance(l_.target, ast.Name)]
+    rowl_ = [l_ for l_ in all_loops if outer_ and pseudo(l_.iter) == outer_[0].target.id and any(l_ is x for x in ast.walk(outer_[0]))]
+    loops = outer_[:1] + rowl_[:1]
+    # (further loops are allowed inside the row loop only: they build the row)
+    ok = len(outer_) == 1 and len(rowl_) == 1 and all(l_ in loops or any(l_ is x for x in ast.walk(rowl_[0])) for l_ in all_loops)
     run.check(ok, 'CAT', cat.where, cat.qualname, 'for resource in resources: for row in resource',
               'the concatenator does not iterate every row of every chained resource')
     if ok:
